@@ -6,8 +6,7 @@ C04 — MQTT 5 codecs, both copies:
 Same layout as V4.lean: one model, the copy `k` is a parameter where the sources differ (DEV).
 The property block follows the code: the writer emits the present properties in its fixed order,
 the reader is the `while cursor < properties_len` loop over whatever order arrives, with the
-cursor accounting of the source — including `cursor += 1 + id_len` for a subscription identifier
-although the identifier byte was already counted (publish.rs and subscribe.rs of both crates).
+cursor accounting of the source (after a5a3ef5 every arm adds exactly the bytes it consumed).
 Import-free.
 -/
 import Model.Codec.V4
@@ -105,8 +104,8 @@ def encProps : Option Props → Except Err Bytes
     if propListLen ps > remainingLimit || !varsFit ps then .error .malformed
     else .ok (encVarintLoop (propListLen ps) ++ encPropList ps)
 
-/-- value reader of one `match` arm; returns the value, what the arm adds to `cursor`, the rest.
-    The `.var` arm adds `1 + id_len` (sic). -/
+/-- value reader of one `match` arm; returns the value, what the arm adds to `cursor` (the number
+    of value bytes; for a subscription identifier `id_len`), the rest. -/
 def decPVal (k : Kind) (bs : Bytes) : Except Err (PVal × Nat × Bytes) :=
   match k with
   | .u8 => (match decU8 bs with | .error e => .error e | .ok (v, r) => .ok (.u8 v, 1, r))
@@ -127,7 +126,7 @@ def decPVal (k : Kind) (bs : Bytes) : Except Err (PVal × Nat × Bytes) :=
        | .ok (b, r') => .ok (.pair a b, 2 + a.length + 2 + b.length, r'))
   | .var =>
     (match decVarint bs with
-     | .error e => .error e | .ok (n, idLen, r) => .ok (.var n, 1 + idLen, r))
+     | .error e => .error e | .ok (n, idLen, r) => .ok (.var n, idLen, r))
 
 /-- `while cursor < properties_len { let prop = read_u8(bytes)?; cursor += 1; match … }`;
     `fuel` only makes the recursion structural (every iteration consumes at least one byte) -/
@@ -593,20 +592,25 @@ def decUnsubscribe (body : Bytes) : Except Err Packet :=
 
 /-! ### DISCONNECT (disconnect.rs) -/
 
-/-- `len()`: `2` ("packet type + 0x00", i.e. the whole packet) for the plain form; otherwise
-    `1 + len_len(p) + p` with properties and — sic — `1` without, although `write` then emits the
-    reason code AND a zero property length (two bytes). -/
+/-- `len()`: `2` ("packet type + 0x00", i.e. the whole packet) for the plain form; otherwise the
+    remaining length: `1 + len_len(p) + p` with properties, `2` (reason code + empty property
+    length, c89564d) without. -/
 def disconnectLen (reason : DiscReason) (props : Option Props) : Nat :=
   if reason = .NormalDisconnection ∧ props.isNone then 2
   else match props with
     | some ps => 1 + (lenLen (propListLen ps) + propListLen ps)
-    | none => 1
+    | none => 2
 
-/-- `write`: `if length == 2 { put_u8(0x00); return Ok(2) }` — the number 2 is also reached by
-    `Some(empty properties)`, whose reason code is then dropped. Returns (bytes, return value). -/
+/-- `is_plain()` (client) / the same condition spelled out in the broker (95ce8d5) -/
+def disconnectPlain (reason : DiscReason) (props : Option Props) : Bool :=
+  reason == .NormalDisconnection && props.isNone
+
+/-- `write`: the plain form is the two bytes `e0 00` (returns `Ok(length)` = 2); every other value
+    is `e0, remaining length, reason code, property block` (a zero length byte for `None`).
+    Returns (bytes, return value). -/
 def encDisconnect (reason : DiscReason) (props : Option Props) : Except Err (Bytes × Nat) :=
   let length := disconnectLen reason props
-  if length = 2 then .ok ([u8 0xE0, u8 0], 2)
+  if disconnectPlain reason props then .ok ([u8 0xE0, u8 0], length)
   else
     match encVarint length with
     | .error e => .error e
@@ -615,10 +619,10 @@ def encDisconnect (reason : DiscReason) (props : Option Props) : Except Err (Byt
       | .error e => .error e
       | .ok pb => .ok (u8 0xE0 :: (l ++ [u8 (discReasonByte reason)] ++ pb), 1 + l.length + length)
 
-/-- `size()` -/
+/-- client `size()` -/
 def disconnectSize (reason : DiscReason) (props : Option Props) : Nat :=
   let len := disconnectLen reason props
-  if len = 2 then 2 else 1 + lenLen len + len
+  if disconnectPlain reason props then len else 1 + lenLen len + len
 
 /-- `Disconnect::read` / `disconnect::read` for a non-empty body -/
 def decDisconnect (byte1 : Nat) (body : Bytes) : Except Err Packet :=
@@ -716,12 +720,11 @@ def decAckWith {ρ : Type} (ofByte : Nat → Option ρ) (success : ρ)
       | none => .error .malformed
       | some r => .ok (mk pkid r props)
 
-/-- body decoders (remaining_len ≠ 0). DEV: the broker's `read_mut` has no arm for ConnAck and
-    UnsubAck: `_ => unreachable!()`. -/
+/-- body decoders (remaining_len ≠ 0), `read_frame` of both copies -/
 def decBody (k : Copy) (ty byte1 remaining : Nat) (body : Bytes) : Except Err Packet :=
   match ty with
   | 1 => decConnect body
-  | 2 => (match k with | .client => decConnAck body | .broker => .error .panic)
+  | 2 => decConnAck body
   | 3 => decPublish byte1 body
   | 4 => decAckWith ackReasonOfByte .Success .puback remaining body
   | 5 => decAckWith ackReasonOfByte .Success .pubrec remaining body
@@ -730,15 +733,16 @@ def decBody (k : Copy) (ty byte1 remaining : Nat) (body : Bytes) : Except Err Pa
   | 8 => decSubscribe body
   | 9 => decSubAck k body
   | 10 => decUnsubscribe body
-  | 11 => (match k with | .client => decUnsubAck body | .broker => .error .panic)
+  | 11 => decUnsubAck body
   | 12 => .ok .pingreq
   | 13 => .ok .pingresp
   | 14 => decDisconnect byte1 body
   | _ => .error .malformed
 
-/-- after the frame split. DEV (remaining_len = 0): the broker maps an empty Disconnect to
-    `NormalDisconnection`; the client answers `Err(PayloadRequired)` — although that is exactly
-    what its own writer produces for `Disconnect::new(NormalDisconnection)`. -/
+/-- `read_frame` after the frame split. DEV (remaining_len = 0): the client hands an empty
+    DISCONNECT to `Disconnect::read`, which refuses non-zero flag bits; the broker's arm returns
+    `NormalDisconnection` without looking at the flags. A body reader that runs out of bytes inside
+    the complete frame (`InsufficientBytes`) is reported as `MalformedPacket` (5359110). -/
 def decodeFrame (k : Copy) (s : Split) : DecodeResult :=
   let ty := s.byte1 / 16
   if ty = 0 ∨ ty = 15 then .error .malformed
@@ -748,11 +752,14 @@ def decodeFrame (k : Copy) (s : Split) : DecodeResult :=
     | 13 => .packet .pingresp s.rest
     | 14 =>
       (match k with
-       | .client => .error .malformed
+       | .client =>
+         if s.byte1 % 16 ≠ 0 then .error .malformed
+         else .packet (.disconnect .NormalDisconnection none) s.rest
        | .broker => .packet (.disconnect .NormalDisconnection none) s.rest)
     | _ => .error .malformed
   else
     match decBody k ty s.byte1 s.remaining s.body with
+    | .error .insufficient => .error .malformed
     | .error e => .error e
     | .ok p => .packet p s.rest
 
@@ -777,98 +784,55 @@ def propOk (spec : PropSpec) (p : Property) : Bool :=
    | .pair a b => strOk true a && strOk true b
    | .var n => decide (n ≤ remainingLimit))
 
-/-- what the reader adds to `cursor` for one property: its wire size, plus one for a
-    subscription identifier -/
-def cursorInc (p : Property) : Nat :=
-  1 + (match p.val with | .var n => 1 + lenLen n | v => pvalLen v)
-
-/-- the `while cursor < plen` loop reads exactly the properties `ps` (no early exit before the
-    last one, exit after it) when started with `cursor` -/
-def loopExact (plen : Nat) : Nat → Props → Bool
-  | cursor, [] => decide (plen ≤ cursor)
-  | cursor, p :: ps => decide (cursor < plen) && loopExact plen (cursor + cursorInc p) ps
-
-/-- property-level well-formedness of a properties value for the struct described by `spec`:
-    a canonical (writer-order, `Option` fields at most once), non-empty list of in-range values.
+/-- well-formedness of a properties value for the struct described by `spec`: a canonical
+    (writer-order, `Option` fields at most once), non-empty list of in-range values.
     `Some(struct with every field empty)` is excluded: it is written as length 0 and read back as
     `None` (second representation of one wire value). -/
-def propsOkSpec (spec : PropSpec) : Option Props → Bool
+def propsOk (spec : PropSpec) : Option Props → Bool
   | none => true
   | some ps =>
     !ps.isEmpty && ps.all (propOk spec) && decide (normalize spec ps = ps)
       && propListLen ps ≤ remainingLimit
 
-/-- additionally: the reader's cursor accounting reads the block exactly. Fails only when
-    subscription identifiers are present (see `C04.v5_publish_three_subscription_ids_misparse`). -/
-def propsOk (spec : PropSpec) (o : Option Props) : Bool :=
-  propsOkSpec spec o &&
-  (match o with | none => true | some ps => loopExact (propListLen ps) 0 ps)
-
-def willOk (exact : Bool) (w : Will) : Bool :=
-  strOk false w.topic && strOk false w.message &&
-    (if exact then propsOk willSpec w.props else propsOkSpec willSpec w.props)
+def willOk (w : Will) : Bool :=
+  strOk false w.topic && strOk false w.message && propsOk willSpec w.props
 
 def filterOk (f : Filter) : Bool := strOk true f.path
 
-/-- Well-formedness shared by the monitor (`exact = false`: what the property text calls a
-    well-formed value of copy `k`) and the theorems (`exact = true`: additionally the reader's
-    cursor accounting must not cut the property block short, and the shapes recorded as findings
-    in KNOWN_FINDINGS.txt are excluded). See Proofs/Props/C04.lean for the list. -/
-def wfGen (exact : Bool) (k : Copy) : Packet → Bool
+/-- Well-formed MQTT 5 packet values of copy `k`: the precondition of the theorems and, the same
+    predicate, the precondition of the monitor in the correspondence run. Exclusions are listed
+    with their reasons in Proofs/Props/C04.lean. -/
+def wf (k : Copy) : Packet → Bool
   | .connect level keepAlive clientId _ props will login =>
-    level == 5 && keepAlive < 65536 && strOk true clientId
-      && (if exact then propsOk connectSpec props else propsOkSpec connectSpec props)
-      && optAll (willOk exact) will && optAll loginOk login
+    level == 5 && keepAlive < 65536 && strOk true clientId && propsOk connectSpec props
+      && optAll willOk will && optAll loginOk login
       && connectLen props clientId will login ≤ remainingLimit
   | .connack _ code props =>
     (connCodeByte code).isSome && (match k with | .client => true | .broker => code != .BadClientId)
-      && (if exact then propsOk connackSpec props else propsOkSpec connackSpec props)
-      && 2 + propsLen props ≤ remainingLimit
-      && (!exact || k == .client)      -- finding: broker `read_mut` panics on ConnAck
+      && propsOk connackSpec props && 2 + propsLen props ≤ remainingLimit
   | .publish _ qos _ topic pkid payload props =>
     pkid < 65536 && decide (qos = .q0 ↔ pkid = 0) && strOk false topic
-      && (if exact then propsOk publishSpec props else propsOkSpec publishSpec props)
-      && publishLen qos topic pkid payload props ≤ remainingLimit
+      && propsOk publishSpec props && publishLen qos topic pkid payload props ≤ remainingLimit
   | .puback pkid _ props | .pubrec pkid _ props | .pubrel pkid _ props | .pubcomp pkid _ props =>
-    pkid < 65536 && (if exact then propsOk ackSpec props else propsOkSpec ackSpec props)
-      && 3 + propsLen props ≤ remainingLimit
+    pkid < 65536 && propsOk ackSpec props && 3 + propsLen props ≤ remainingLimit
   | .subscribe pkid props fs =>
-    pkid < 65536 && !fs.isEmpty && fs.all filterOk
-      && (if exact then propsOk subscribeSpec props else propsOkSpec subscribeSpec props)
+    pkid < 65536 && !fs.isEmpty && fs.all filterOk && propsOk subscribeSpec props
       && subscribeLen props fs ≤ remainingLimit
   | .suback pkid props codes =>
     pkid < 65536 && !codes.isEmpty
       && codes.all (fun c => match subCodeByte k c with
                              | some b => subCodeOfByte k b == some c
                              | none => false)
-      && (if exact then propsOk ackSpec props else propsOkSpec ackSpec props)
-      && 2 + codes.length + propsLen props ≤ remainingLimit
+      && propsOk ackSpec props && 2 + codes.length + propsLen props ≤ remainingLimit
   | .unsubscribe pkid props ts =>
-    pkid < 65536 && ts.all (strOk true)
-      && (if exact then propsOk unsubscribeSpec props else propsOkSpec unsubscribeSpec props)
+    pkid < 65536 && ts.all (strOk true) && propsOk unsubscribeSpec props
       && unsubscribeLen props ts ≤ remainingLimit
   | .unsuback pkid props reasons =>
-    pkid < 65536 && !reasons.isEmpty
-      && (if exact then propsOk ackSpec props else propsOkSpec ackSpec props)
+    pkid < 65536 && !reasons.isEmpty && propsOk ackSpec props
       && 2 + reasons.length + propsLen props ≤ remainingLimit
-      && (!exact || k == .client)      -- finding: broker `read_mut` panics on UnsubAck
   | .pingreq => true
   | .pingresp => true
-  | .disconnect reason props =>
-    (if exact then propsOk disconnectSpec props else propsOkSpec disconnectSpec props)
-      && 1 + propsLen props ≤ remainingLimit
-      && (!exact ||
-           (match props with
-            | some _ => true
-            -- findings: without properties the writer declares one byte and writes two unless
-            -- the reason is NormalDisconnection; and the client cannot read the two-byte form
-            | none => reason == .NormalDisconnection && k == .broker))
-
-/-- precondition of the theorems -/
-def wf (k : Copy) (p : Packet) : Bool := wfGen true k p
-
-/-- what the monitor treats as a well-formed value -/
-def wfSpec (k : Copy) (p : Packet) : Bool := wfGen false k p
+  | .disconnect _ props => propsOk disconnectSpec props && 1 + propsLen props ≤ remainingLimit
 
 def toBrokerCode : SubCode → SubCode
   | .Success .q0 => .QoS0 | .Success .q1 => .QoS1 | .Success .q2 => .QoS2 | c => c
